@@ -277,3 +277,301 @@ Proof.
   eexists. exists 5, 2, 128. split; [vm_compute; reflexivity|]. split; [cbn; tauto|].
   unfold rows_of, dec1, half16. cbv zeta. vm_compute. intros [H | H]; discriminate.
 Qed.
+
+(* ---- everything a clipped walk emits is inside its clip (RectClipBlitter) --------------------------------------------------- *)
+Definition allin (c : iclip) (l : list (Z * Z * Z)) : Prop := forall x y a, In (x, y, a) l -> in_clip c x y = true /\ 0 < a.
+Lemma allin_nil c : allin c [].
+Proof. intros x y a []. Qed.
+Lemma allin_app c l1 l2 : allin c l1 -> allin c l2 -> allin c (l1 ++ l2).
+Proof. intros H1 H2 x y a Hin. apply in_app_or in Hin. destruct Hin; [apply H1 | apply H2]; assumption. Qed.
+Lemma allin_px1 c x y a : allin c (px1 c x y a).
+Proof. intros x' y' a' Hin. apply in_px1 in Hin. destruct Hin as (P & A & I). inversion P; subst. auto. Qed.
+Lemma allin_flat_map {A} c (f : A -> list (Z * Z * Z)) l : (forall i, allin c (f i)) -> allin c (flat_map f l).
+Proof. intros H x y a Hin. apply in_flat_map in Hin. destruct Hin as (i & _ & Hin). exact (H i x y a Hin). Qed.
+Lemma allin_row_px c x y n a : allin c (row_px c x y n a).
+Proof. apply allin_flat_map. intros i. apply allin_px1. Qed.
+Lemma allin_col_px c x y n a : allin c (col_px c x y n a).
+Proof. apply allin_flat_map. intros i. apply allin_px1. Qed.
+
+Ltac binds H := repeat (let a := fresh "v" in let E := fresh "E" in apply bind_some in H; destruct H as (a & E & H)).
+
+Lemma draw_cap_allin k c pos f slope m res : draw_cap k c pos f slope m = Some res -> allin c (fst res).
+Proof.
+  unfold draw_cap. intros H. binds H. destruct k.
+  - binds H. injection H as H. subst res. cbn [fst]. apply allin_app; [apply allin_px1|]. destruct (1 <=? _); [apply allin_px1 | apply allin_nil].
+  - binds H. injection H as H. subst res. cbn [fst]. apply allin_app; apply allin_px1.
+  - destruct (negb (slope =? 0)); [discriminate|]. binds H. injection H as H. subst res. cbn [fst]. apply allin_app; apply allin_px1.
+  - binds H. injection H as H. subst res. cbn [fst]. apply allin_app; apply allin_px1.
+Qed.
+
+Lemma slanted_loop_allin fuel : forall k c pos f slope acc res,
+  slanted_loop fuel k c pos f slope acc = Some res -> allin c acc -> allin c (fst res).
+Proof.
+  induction fuel as [|n IH]; intros k c pos f slope acc res H Ha; cbn [slanted_loop] in H.
+  - injection H as H. subst res. exact Ha.
+  - binds H. eapply IH; [exact H|]. apply allin_app; [exact Ha|]. destruct k; apply allin_app; apply allin_px1.
+Qed.
+
+Lemma draw_line_allin k c pos stop f slope res : draw_line k c pos stop f slope = Some res -> allin c (fst res).
+Proof.
+  unfold draw_line. intros H. destruct k.
+  - destruct (stop - pos <=? 0); [injection H as H; subst res; apply allin_nil|]. binds H. injection H as H. subst res. cbn [fst].
+    apply allin_app; [apply allin_row_px|]. destruct (1 <=? _); [apply allin_row_px | apply allin_nil].
+  - destruct (stop <=? pos); [discriminate|]. binds H. injection H as H. subst res. cbn [fst].
+    eapply slanted_loop_allin; [eassumption | apply allin_nil].
+  - destruct (stop - pos <=? 0); [injection H as H; subst res; apply allin_nil|]. destruct (negb (slope =? 0)); [discriminate|].
+    binds H. injection H as H. subst res. cbn [fst]. apply allin_app; apply allin_col_px.
+  - destruct (stop <=? pos); [discriminate|]. binds H. injection H as H. subst res. cbn [fst].
+    eapply slanted_loop_allin; [eassumption | apply allin_nil].
+Qed.
+
+Theorem walk_allin k c istart istop fstart slope s0 s1 out :
+  walk k c istart istop fstart slope s0 s1 = Some out -> allin c out.
+Proof.
+  unfold walk. intros H. destruct ((istart <? 0) || (istop <? 0)); [discriminate|].
+  apply bind_some in H. destruct H as (r1 & C1 & H).
+  destruct (istop - (istart + 1) - (if 0 <? s1 then 1 else 0) <? 0); [discriminate|].
+  apply bind_some in H. destruct H as (r2 & C2 & H). apply bind_some in H. destruct H as (r3 & C3 & H).
+  injection H as H. subst out.
+  apply allin_app; [eapply draw_cap_allin; eassumption|]. apply allin_app.
+  - destruct (0 <? _); [eapply draw_line_allin; eassumption | injection C2 as C2; subst r2; apply allin_nil].
+  - destruct (0 <? s1); [eapply draw_cap_allin; eassumption | injection C3 as C3; subst r3; apply allin_nil].
+Qed.
+
+(* ---- exactly horizontal / vertical segments without the clipping blitter ---------------------------------------------------- *)
+Lemma in_row_px c x y n a p : In p (row_px c x y n a) -> exists i, 0 <= i < n /\ p = (x + i, y, a) /\ 0 < a.
+Proof.
+  unfold row_px. intros H. apply in_flat_map in H. destruct H as (i & Hi & H). apply in_seq in Hi. apply in_px1 in H.
+  destruct H as (P & A & _). exists (Z.of_nat i). split; [lia|]. auto.
+Qed.
+Lemma in_col_px c x y n a p : In p (col_px c x y n a) -> exists i, 0 <= i < n /\ p = (x, y + i, a) /\ 0 < a.
+Proof.
+  unfold col_px. intros H. apply in_flat_map in H. destruct H as (i & Hi & H). apply in_seq in Hi. apply in_px1 in H.
+  destruct H as (P & A & _). exists (Z.of_nat i). split; [lia|]. auto.
+Qed.
+
+(* with f + 1/2 >= 65536 the accumulator is returned unchanged and the two rows are q - 1 and q *)
+Lemma hline_cap c pos f slope m res : draw_cap HLine c pos f slope m = Some res -> 65536 <= f + half16 ->
+  snd res = f /\ forall x y a, In (x, y, a) (fst res) -> x = pos /\ (y = (f + half16) / 65536 \/ y = (f + half16) / 65536 - 1) /\ 0 < a.
+Proof.
+  unfold draw_cap. intros H Hf. binds H. apply ck_some in E. destruct E as (E & _). subst v.
+  rewrite (Z.max_l (f + half16) 0) in * by lia. apply ck_some in E2. destruct E2 as (E2 & _).
+  injection H as H. subst res. cbn [fst snd]. split; [lia|]. rewrite shr16.
+  assert (Q : 1 <= (f + half16) / 65536) by (apply Z.div_le_lower_bound; lia).
+  destruct (Z.leb_spec 1 ((f + half16) / 65536)); [|lia].
+  intros x y a Hin. apply in_app_or in Hin. destruct Hin as [Hin | Hin]; apply in_px1 in Hin; destruct Hin as (P & A & _); inversion P; subst; auto.
+Qed.
+Lemma hline_line c pos stop f slope res : draw_line HLine c pos stop f slope = Some res -> 65536 <= f + half16 ->
+  snd res = f /\ forall x y a, In (x, y, a) (fst res) -> pos <= x < stop /\ (y = (f + half16) / 65536 \/ y = (f + half16) / 65536 - 1) /\ 0 < a.
+Proof.
+  unfold draw_line. intros H Hf. destruct (Z.leb_spec (stop - pos) 0).
+  - injection H as H. subst res. cbn [fst snd]. split; [reflexivity|]. intros x y a [].
+  - binds H. apply ck_some in E. destruct E as (E & _). subst v. rewrite (Z.max_l (f + half16) 0) in * by lia.
+    apply ck_some in E0. destruct E0 as (E0 & _). injection H as H. subst res. cbn [fst snd]. split; [lia|]. rewrite shr16.
+    assert (Q : 1 <= (f + half16) / 65536) by (apply Z.div_le_lower_bound; lia).
+    destruct (Z.leb_spec 1 ((f + half16) / 65536)); [|lia].
+    intros x y a Hin. apply in_app_or in Hin. destruct Hin as [Hin | Hin]; apply in_row_px in Hin; destruct Hin as (i & Hi & P & A); inversion P; subst;
+      (split; [lia|]; auto).
+Qed.
+
+Theorem walk_hline_inside_clip istart istop fstart slope s0 s1 out cl ct cr cb :
+  walk HLine None istart istop fstart slope s0 s1 = Some out ->
+  cl <= istart -> istop <= cr -> 0 <= ct ->
+  ct <= y_top fstart 0 (istop - istart) -> y_bottom fstart 0 (istop - istart) <= cb ->
+  forall x y a, In (x, y, a) out -> cl <= x < cr /\ ct <= y < cb /\ 0 < a.
+Proof.
+  unfold walk. intros H Hl Hr Ht Htop Hbot. unfold y_top, y_bottom, ceil16 in *. cbn [Z.leb] in *. change (0 <=? 0) with true in *. cbv iota in *.
+  assert (Hf : 65536 <= fstart + half16) by (unfold half16 in *; lia).
+  destruct ((istart <? 0) || (istop <? 0)); [discriminate|].
+  apply bind_some in H. destruct H as (r1 & C1 & H).
+  destruct (istop - (istart + 1) - (if 0 <? s1 then 1 else 0) <? 0) eqn:Ef; [discriminate|]. apply Z.ltb_ge in Ef.
+  apply bind_some in H. destruct H as (r2 & C2 & H). apply bind_some in H. destruct H as (r3 & C3 & H).
+  injection H as H. subst out.
+  destruct (hline_cap _ _ _ _ _ _ C1 Hf) as (S1 & P1).
+  assert (R2 : snd r2 = fstart /\ forall x y a, In (x, y, a) (fst r2) -> istart + 1 <= x < istop /\ (y = (fstart + half16) / 65536 \/ y = (fstart + half16) / 65536 - 1) /\ 0 < a).
+  { destruct (0 <? istop - (istart + 1) - (if 0 <? s1 then 1 else 0)).
+    - rewrite S1 in C2. destruct (hline_line _ _ _ _ _ _ C2 Hf) as (S2 & P2). split; [exact S2|]. intros x y a Hin.
+      destruct (P2 x y a Hin) as (A & B & C). split; [destruct (0 <? s1); lia | auto].
+    - injection C2 as C2. subst r2. cbn [fst snd]. split; [exact S1 | intros x y a []]. }
+  destruct R2 as (S2 & P2).
+  assert (Hrow : forall y, y = (fstart + half16) / 65536 \/ y = (fstart + half16) / 65536 - 1 -> ct <= y < cb) by (intros y; unfold half16 in *; lia).
+  intros x y a Hin. apply in_app_or in Hin. destruct Hin as [Hin | Hin].
+  - destruct (P1 x y a Hin) as (A & B & C). subst x. split; [destruct (0 <? s1); lia|]. split; [apply Hrow; exact B | exact C].
+  - apply in_app_or in Hin. destruct Hin as [Hin | Hin].
+    + destruct (P2 x y a Hin) as (A & B & C). split; [lia|]. split; [apply Hrow; exact B | exact C].
+    + destruct (0 <? s1) eqn:Es.
+      * rewrite S2 in C3. destruct (hline_cap _ _ _ _ _ _ C3 Hf) as (_ & P3). destruct (P3 x y a Hin) as (A & B & C). subst x.
+        split; [lia|]. split; [apply Hrow; exact B | exact C].
+      * injection C3 as C3. subst r3. destruct Hin.
+Qed.
+
+Lemma vline_cap c pos f m res : draw_cap VLine c pos f 0 m = Some res -> 65536 <= f + half16 ->
+  snd res = f /\ forall x y a, In (x, y, a) (fst res) -> y = pos /\ (x = (f + half16) / 65536 \/ x = (f + half16) / 65536 - 1) /\ 0 < a.
+Proof.
+  unfold draw_cap. intros H Hf. binds H. apply ck_some in E. destruct E as (E & _). subst v.
+  rewrite (Z.max_l (f + half16) 0) in * by lia. cbn [Z.eqb negb] in H. binds H. apply ck_some in E2. destruct E2 as (E2 & _).
+  injection H as H. subst res. cbn [fst snd]. split; [lia|]. rewrite shr16.
+  assert (Q : 1 <= (f + half16) / 65536) by (apply Z.div_le_lower_bound; lia).
+  assert (D : dec1 ((f + half16) / 65536) = (f + half16) / 65536 - 1) by (unfold dec1; lia). rewrite D.
+  intros x y a Hin. apply in_app_or in Hin. destruct Hin as [Hin | Hin]; apply in_px1 in Hin; destruct Hin as (P & A & _); inversion P; subst; auto.
+Qed.
+Lemma vline_line c pos stop f res : draw_line VLine c pos stop f 0 = Some res -> 65536 <= f + half16 ->
+  snd res = f /\ forall x y a, In (x, y, a) (fst res) -> pos <= y < stop /\ (x = (f + half16) / 65536 \/ x = (f + half16) / 65536 - 1) /\ 0 < a.
+Proof.
+  unfold draw_line. intros H Hf. destruct (Z.leb_spec (stop - pos) 0).
+  - injection H as H. subst res. cbn [fst snd]. split; [reflexivity|]. intros x y a [].
+  - cbn [Z.eqb negb] in H. binds H. apply ck_some in E. destruct E as (E & _). subst v. rewrite (Z.max_l (f + half16) 0) in * by lia.
+    apply ck_some in E0. destruct E0 as (E0 & _). injection H as H. subst res. cbn [fst snd]. split; [lia|]. rewrite shr16.
+    assert (Q : 1 <= (f + half16) / 65536) by (apply Z.div_le_lower_bound; lia).
+    assert (D : dec1 ((f + half16) / 65536) = (f + half16) / 65536 - 1) by (unfold dec1; lia). rewrite D.
+    intros x y a Hin. apply in_app_or in Hin. destruct Hin as [Hin | Hin]; apply in_col_px in Hin; destruct Hin as (i & Hi & P & A); inversion P; subst;
+      (split; [lia|]; auto).
+Qed.
+
+Theorem walk_vline_inside_clip istart istop fstart s0 s1 out cl ct cr cb :
+  walk VLine None istart istop fstart 0 s0 s1 = Some out ->
+  ct <= istart -> istop <= cb -> 0 <= cl ->
+  cl <= y_top fstart 0 (istop - istart) -> y_bottom fstart 0 (istop - istart) <= cr ->
+  forall x y a, In (x, y, a) out -> cl <= x < cr /\ ct <= y < cb /\ 0 < a.
+Proof.
+  unfold walk. intros H Hl Hr Ht Htop Hbot. unfold y_top, y_bottom, ceil16 in *. change (0 <=? 0) with true in *. cbv iota in *.
+  assert (Hf : 65536 <= fstart + half16) by (unfold half16 in *; lia).
+  destruct ((istart <? 0) || (istop <? 0)); [discriminate|].
+  apply bind_some in H. destruct H as (r1 & C1 & H).
+  destruct (istop - (istart + 1) - (if 0 <? s1 then 1 else 0) <? 0) eqn:Ef; [discriminate|]. apply Z.ltb_ge in Ef.
+  apply bind_some in H. destruct H as (r2 & C2 & H). apply bind_some in H. destruct H as (r3 & C3 & H).
+  injection H as H. subst out.
+  destruct (vline_cap _ _ _ _ _ C1 Hf) as (S1 & P1).
+  assert (R2 : snd r2 = fstart /\ forall x y a, In (x, y, a) (fst r2) -> istart + 1 <= y < istop /\ (x = (fstart + half16) / 65536 \/ x = (fstart + half16) / 65536 - 1) /\ 0 < a).
+  { destruct (0 <? istop - (istart + 1) - (if 0 <? s1 then 1 else 0)).
+    - rewrite S1 in C2. destruct (vline_line _ _ _ _ _ C2 Hf) as (S2 & P2). split; [exact S2|]. intros x y a Hin.
+      destruct (P2 x y a Hin) as (A & B & C). split; [destruct (0 <? s1); lia | auto].
+    - injection C2 as C2. subst r2. cbn [fst snd]. split; [exact S1 | intros x y a []]. }
+  destruct R2 as (S2 & P2).
+  assert (Hcol : forall x, x = (fstart + half16) / 65536 \/ x = (fstart + half16) / 65536 - 1 -> cl <= x < cr) by (intros x; unfold half16 in *; lia).
+  intros x y a Hin. apply in_app_or in Hin. destruct Hin as [Hin | Hin].
+  - destruct (P1 x y a Hin) as (A & B & C). subst y. split; [apply Hcol; exact B|]. split; [destruct (0 <? s1); lia | exact C].
+  - apply in_app_or in Hin. destruct Hin as [Hin | Hin].
+    + destruct (P2 x y a Hin) as (A & B & C). split; [apply Hcol; exact B|]. split; [lia | exact C].
+    + destruct (0 <? s1) eqn:Es.
+      * rewrite S2 in C3. destruct (vline_cap _ _ _ _ _ C3 Hf) as (_ & P3). destruct (P3 x y a Hin) as (A & B & C). subst y.
+        split; [apply Hcol; exact B|]. split; [lia | exact C].
+      * injection C3 as C3. subst r3. destruct Hin.
+Qed.
+
+(* ---- do_anti_hairline with a clip: every pixel is inside the clip, whichever blitter route is chosen ------------------------ *)
+Lemma obind_some {A B} (o : option A) (f : A -> option B) r : obind o f = Some r -> exists a, o = Some a /\ f a = Some r.
+Proof. destruct o as [a|]; cbn; [intros H; exists a; auto | discriminate]. Qed.
+Lemma ck_i_some z v : ck_i 32 z = Some v -> v = z.
+Proof. intros H. apply (ck_some z v) in H. tauto. Qed.
+
+Lemma ceil_some x b : fdot16_ceil_to_i32 x = Some b -> b = (x + 65535) / 65536.
+Proof.
+  unfold fdot16_ceil_to_i32. intros H. apply obind_some in H. destruct H as (t2 & H1 & H2).
+  apply obind_some in H1. destruct H1 as (t1 & H0 & H1). apply ck_i_some in H0, H1. injection H2 as H2. subst.
+  rewrite shr16. f_equal. lia.
+Qed.
+Lemma floor16 x : fdot16_floor_to_i32 x = x / 65536.
+Proof. unfold fdot16_floor_to_i32. apply shr16. Qed.
+
+Definition clip_of (k : kind) (al ar cl ch : Z) : Z * Z * Z * Z :=
+  match k with HLine | Horish => (al, cl, ar, ch) | _ => (cl, al, ch, ar) end.
+
+Theorem clipped_walk_inside k al ar cl ch istart istop fstart slope s0 s1 last out :
+  0 <= al -> 0 <= cl -> (k = HLine \/ k = VLine -> slope = 0) ->
+  clipped_walk k (clip_of k al ar cl ch) al ar cl ch istart istop fstart slope s0 s1 last = Some out ->
+  forall x y a, In (x, y, a) out -> in_clip (Some (clip_of k al ar cl ch)) x y = true /\ 0 < a.
+Proof.
+  intros Hal Hcl Hs H. unfold clipped_walk in H.
+  destruct ((ar <=? istart) || (istop <=? al)); [injection H as H; subst out; intros x y a []|].
+  apply bind_some in H. destruct H as (adj & Eadj & H). destruct adj as (((ist, fs), sc0), sc1).
+  assert (A1 : al <= ist).
+  { destruct (Z.ltb_spec istart al).
+    - binds Eadj. destruct (istop - al =? 1); injection Eadj as ? ? ? ?; lia.
+    - injection Eadj as ? ? ? ?. lia. }
+  destruct (if ar <? istop then (ar, 0) else (istop, sc1)) as (isp, sc1') eqn:Esp.
+  assert (A2 : isp <= ar) by (destruct (Z.ltb_spec ar istop); injection Esp as ? ?; lia).
+  destruct (isp <? ist) eqn:E1; [discriminate|]. apply Z.ltb_ge in E1.
+  destruct (ist =? isp) eqn:E2; [injection H as H; subst out; intros x y a []|]. apply Z.eqb_neq in E2.
+  apply bind_some in H. destruct H as (span & Espan & H). apply ck_some in Espan. destruct Espan as (Espan & _).
+  apply bind_some in H. destruct H as (tb & Etb & H).
+  destruct ((ch <=? fst tb - 1) || (snd tb + 1 <=? cl)); [injection H as H; subst out; intros x y a []|].
+  destruct ((cl <=? fst tb - 1) && (snd tb + 1 <=? ch)) eqn:Ein.
+  2: { (* the clipping blitter stays *) intros x y a Hin. exact (walk_allin _ _ _ _ _ _ _ _ _ H x y a Hin). }
+  (* the clipping blitter is dropped *)
+  apply andb_true_iff in Ein. destruct Ein as (I1 & I2). apply Z.leb_le in I1, I2.
+  assert (T : fst tb - 1 = y_top fs slope (isp - ist) /\ snd tb + 1 = y_bottom fs slope (isp - ist)).
+  { unfold y_top, y_bottom, ceil16. destruct (0 <=? slope).
+    - binds Etb. apply ck_some in E, E0, E3. destruct E as (E & _), E0 as (E0 & _), E3 as (E3 & _). apply ceil_some in E4.
+      injection Etb as Etb. subst tb. cbn [fst snd]. rewrite floor16. subst. unfold half16. split; [reflexivity | f_equal; f_equal; lia].
+    - binds Etb. apply ck_some in E, E3, E4. destruct E as (E & _), E3 as (E3 & _), E4 as (E4 & _). apply ceil_some in E0.
+      injection Etb as Etb. subst tb. cbn [fst snd]. rewrite floor16. subst. unfold half16. split; [f_equal; f_equal; lia | reflexivity]. }
+  destruct T as (T1 & T2). rewrite T1 in I1. rewrite T2 in I2.
+  intros x y a Hin. destruct k; cbn [clip_of in_clip].
+  - rewrite (Hs (or_introl eq_refl)) in *.
+    destruct (walk_hline_inside_clip ist isp fs 0 sc0 sc1' out al cl ar ch H A1 A2 Hcl I1 I2 x y a Hin) as (X & Y & Z).
+    split; [|exact Z]. repeat (apply andb_true_iff; split); try apply Z.leb_le; try apply Z.ltb_lt; lia.
+  - destruct (walk_horish_inside_clip ist isp fs slope sc0 sc1' out al cl ar ch H A1 A2 Hcl I1 I2 x y a Hin) as (X & Y & Z).
+    split; [|exact Z]. repeat (apply andb_true_iff; split); try apply Z.leb_le; try apply Z.ltb_lt; lia.
+  - rewrite (Hs (or_intror eq_refl)) in *.
+    destruct (walk_vline_inside_clip ist isp fs sc0 sc1' out cl al ch ar H A1 A2 Hcl I1 I2 x y a Hin) as (X & Y & Z).
+    split; [|exact Z]. repeat (apply andb_true_iff; split); try apply Z.leb_le; try apply Z.ltb_lt; lia.
+  - destruct (walk_vertish_inside_clip ist isp fs slope sc0 sc1' out cl al ch ar H A1 A2 Hcl I1 I2 x y a Hin) as (X & Y & Z).
+    split; [|exact Z]. repeat (apply andb_true_iff; split); try apply Z.leb_le; try apply Z.ltb_lt; lia.
+Qed.
+
+Theorem anti_hairline_short_inside x0 y0 x1 y1 cl ct cr cb out :
+  0 <= cl -> 0 <= ct ->
+  anti_hairline_short x0 y0 x1 y1 (Some (cl, ct, cr, cb)) = Some out ->
+  forall x y a, In (x, y, a) out -> in_clip (Some (cl, ct, cr, cb)) x y = true /\ 0 < a.
+Proof.
+  intros Hl Ht H. unfold anti_hairline_short in H.
+  apply bind_some in H. destruct H as (dxa & _ & H). apply bind_some in H. destruct H as (dya & _ & H).
+  destruct (Z.abs dya <? Z.abs dxa).
+  - (* mostly horizontal *)
+    destruct (if x1 <? x0 then (x1, y1, x0, y0) else (x0, y0, x1, y1)) as (((xa, ya), xb), yb).
+    apply bind_some in H. destruct H as (istop & _ & H). apply bind_some in H. destruct H as (f0 & _ & H).
+    apply bind_some in H. destruct H as (slf & Eslf & H). destruct slf as ((slope, fstart), k).
+    assert (K : (k = HLine /\ slope = 0) \/ k = Horish).
+    { destruct (ya =? yb); [injection Eslf as ? ? ?; subst; left; auto|]. binds Eslf.
+      destruct ((v1 <? -65536) || (65536 <? v1)); [discriminate|]. binds Eslf. injection Eslf as ? ? ?. subst. right. reflexivity. }
+    destruct (istop <=? fdot6_floor xa); [discriminate|].
+    apply bind_some in H. destruct H as (sc & _ & H). destruct sc as (s0, s1).
+    destruct K as [(Kk & Ks) | Kk]; subst.
+    { change (cl, ct, cr, cb) with (clip_of HLine cl cr ct cb) in H |- *. eapply clipped_walk_inside; [exact Hl | exact Ht | auto | exact H]. }
+    { change (cl, ct, cr, cb) with (clip_of Horish cl cr ct cb) in H |- *. eapply clipped_walk_inside; [exact Hl | exact Ht | intros [K | K]; discriminate K | exact H]. }
+  - (* mostly vertical *)
+    destruct (if y1 <? y0 then (x1, y1, x0, y0) else (x0, y0, x1, y1)) as (((xa, ya), xb), yb).
+    apply bind_some in H. destruct H as (istop & _ & H). apply bind_some in H. destruct H as (f0 & _ & H).
+    destruct ((xa =? xb) && (ya =? yb)); [injection H as H; subst out; intros x y a []|].
+    apply bind_some in H. destruct H as (slf & Eslf & H). destruct slf as ((slope, fstart), k).
+    assert (K : (k = VLine /\ slope = 0) \/ k = Vertish).
+    { destruct (xa =? xb); [injection Eslf as ? ? ?; subst; left; auto|]. binds Eslf.
+      destruct ((v1 <? -65536) || (65536 <? v1)); [discriminate|]. binds Eslf. injection Eslf as ? ? ?. subst. right. reflexivity. }
+    destruct (istop <=? fdot6_floor ya); [discriminate|].
+    apply bind_some in H. destruct H as (sc & _ & H). destruct sc as (s0, s1).
+    destruct K as [(Kk & Ks) | Kk]; subst.
+    { change (cl, ct, cr, cb) with (clip_of VLine ct cb cl cr) in H |- *. eapply clipped_walk_inside; [exact Ht | exact Hl | auto | exact H]. }
+    { change (cl, ct, cr, cb) with (clip_of Vertish ct cb cl cr) in H |- *. eapply clipped_walk_inside; [exact Ht | exact Hl | intros [K | K]; discriminate K | exact H]. }
+Qed.
+
+(* THE statement for the clipped route of do_anti_hairline, subdivision included *)
+Theorem do_anti_hairline_clipped_inside fuel : forall x0 y0 x1 y1 cl ct cr cb out,
+  0 <= cl -> 0 <= ct ->
+  do_anti_hairline fuel x0 y0 x1 y1 (Some (cl, ct, cr, cb)) = Some out ->
+  forall x y a, In (x, y, a) out -> cl <= x < cr /\ ct <= y < cb /\ 0 < a.
+Proof.
+  assert (Conv : forall cl ct cr cb x y, in_clip (Some (cl, ct, cr, cb)) x y = true -> cl <= x < cr /\ ct <= y < cb).
+  { intros cl ct cr cb x y H. cbn in H. repeat (apply andb_true_iff in H; destruct H as (H & ?)).
+    apply Z.leb_le in H. repeat match goal with H : (_ <=? _) = true |- _ => apply Z.leb_le in H | H : (_ <? _) = true |- _ => apply Z.ltb_lt in H end. lia. }
+  induction fuel as [|n IH]; intros x0 y0 x1 y1 cl ct cr cb out Hl Ht H x y a Hin; cbn [do_anti_hairline] in H.
+  - destruct (_ || _); [discriminate|]. destruct (negb _); [discriminate|]. binds H.
+    destruct ((32704 <? Z.abs v) || (32704 <? Z.abs v0)); [discriminate|].
+    destruct (anti_hairline_short_inside _ _ _ _ _ _ _ _ _ Hl Ht H x y a Hin) as (I & A). destruct (Conv _ _ _ _ _ _ I). auto.
+  - destruct (_ || _); [discriminate|]. destruct (negb _); [discriminate|]. binds H.
+    destruct ((32704 <? Z.abs v) || (32704 <? Z.abs v0)).
+    + binds H. injection H as H. subst out. apply in_app_or in Hin.
+      destruct Hin as [Hin | Hin];
+        match goal with E : do_anti_hairline n _ _ _ _ _ = Some ?l, Hi : In _ ?l |- _ => exact (IH _ _ _ _ _ _ _ _ _ Hl Ht E x y a Hi) end.
+    + destruct (anti_hairline_short_inside _ _ _ _ _ _ _ _ _ Hl Ht H x y a Hin) as (I & A). destruct (Conv _ _ _ _ _ _ I). auto.
+Qed.
